@@ -272,3 +272,103 @@ Proof. vm_compute. reflexivity. Qed.
 Lemma ctl_crash_second_kill :
   has_crash (snd (crun nbeh cinit [ALaunch; ADialOk; APollReady; AKill; AKill])) = true.
 Proof. vm_compute. reflexivity. Qed.
+
+(* ---------- the TERM / INT / KILL escalation is bounded ---------- *)
+Definition rank (k : kpc) : nat :=
+  match k with KDone => 3 | KInt => 2 | KKill => 1 | _ => 0 end.
+Definition budget (k : kpc) : N :=
+  match k with
+  | KDone => et_done_ms + et_sigterm_ms + et_sigint_ms
+  | KInt => et_sigterm_ms + et_sigint_ms
+  | KKill => et_sigint_ms
+  | _ => 0
+  end.
+Definition sigs_from (k : kpc) : list sig :=
+  match k with KDone => [TERM; INT; KILL9] | KInt => [INT; KILL9] | KKill => [KILL9] | _ => [] end.
+
+Fixpoint count_killsteps (l : list action) : nat :=
+  match l with [] => O | AKillStep :: r => S (count_killsteps r) | _ :: r => count_killsteps r end.
+Fixpoint no_kill (l : list action) : bool :=
+  match l with [] => true | AKill :: _ => false | _ :: r => no_kill r end.
+
+(* the escalation is under way (or over, with the device process dead) in a task that was up *)
+Definition esc_ok (s : cst) : Prop :=
+  c_crashed s = false /\ (c_phase s = CWait \/ c_phase s = CEnd) /\
+  (rank (c_kpc s) <> O \/ (c_kpc s = KFin /\ is_run (c_proc s) = false)).
+
+Lemma esc_step b s a s' o :
+  esc_ok s -> a <> AKill -> cstep b s a = (s', o) ->
+  esc_ok s' /\
+  waited o + budget (c_kpc s') <= budget (c_kpc s) /\
+  (rank (c_kpc s') <= rank (c_kpc s))%nat /\
+  (a = AKillStep -> (rank (c_kpc s') <= pred (rank (c_kpc s)))%nat) /\
+  (exists n, sigs o ++ firstn n (sigs_from (c_kpc s')) = firstn (length (sigs o) + n) (sigs_from (c_kpc s))) /\
+  (length (sigs o) + length (sigs_from (c_kpc s')) <= length (sigs_from (c_kpc s)))%nat.
+Proof.
+  intros (Hc & Hp & Hk) Ha HS. unfold esc_ok in *.
+  destruct s as [ph rpc act pend kpc tg proc gc dn cr]. cbn in Hc, Hp, Hk. subst cr.
+  destruct a; try congruence;
+  (destruct Hp; subst ph);
+  (destruct kpc; cbn in Hk; try (exfalso; destruct Hk as [Hk|[Hk _]]; congruence));
+  cstep_cases HS;
+  try (destruct Hk as [Hk|[_ Hk]]; [congruence|]); try discriminate;
+  (split; [split; [reflexivity|split; [auto|first [left; discriminate|right; split; reflexivity]]]|]);
+  (split; [unfold et_done_ms, et_sigterm_ms, et_sigint_ms; lia|]);
+  (split; [lia|]); (split; [intro; try discriminate; lia|]);
+  (split; [|lia]);
+  first [exists 0%nat; reflexivity | exists 1%nat; reflexivity | exists 2%nat; reflexivity | exists 3%nat; reflexivity ].
+Qed.
+
+Lemma esc_run b l : forall s s' t,
+  esc_ok s -> no_kill l = true -> crun b s l = (s', t) ->
+  esc_ok s' /\
+  waited t + budget (c_kpc s') <= budget (c_kpc s) /\
+  (rank (c_kpc s') <= rank (c_kpc s) - count_killsteps l)%nat /\
+  (length (sigs t) + length (sigs_from (c_kpc s')) <= length (sigs_from (c_kpc s)))%nat /\
+  exists n, sigs t ++ firstn n (sigs_from (c_kpc s')) = firstn (length (sigs t) + n) (sigs_from (c_kpc s)).
+Proof.
+  induction l as [|a l IH]; intros s s' t HE HN HR; cbn in HR.
+  - inv HR. cbn. repeat split; try exact (proj1 HE); try apply HE; try lia.
+    exists 0%nat. reflexivity.
+  - destruct (cstep b s a) as [s1 o1] eqn:E1. destruct (crun b s1 l) as [s2 o2] eqn:E2. inv HR.
+    assert (Ha : a <> AKill) by (intro; subst; discriminate).
+    assert (HN' : no_kill l = true) by (destruct a; try exact HN; discriminate).
+    destruct (esc_step _ _ _ _ _ HE Ha E1) as (HE1 & HW1 & HR1 & HS1 & [n1 Hn1] & HL1).
+    destruct (IH _ _ _ HE1 HN' E2) as (HE2 & HW2 & HR2 & HL2 & [n2 Hn2]).
+    split; [exact HE2|]. split; [rewrite waited_app; lia|].
+    split.
+    { destruct a; cbn [count_killsteps]; try lia. specialize (HS1 eq_refl). lia. }
+    rewrite sigs_app, app_length. split; [lia|].
+    exists n2. rewrite <- app_assoc, Hn2.
+    (* sigs o1 ++ firstn k (sigs_from k1) is a prefix of sigs_from k0 for every k *)
+    clear - Hn1 HL1 HL2.
+    set (k := (length (sigs o2) + n2)%nat).
+    destruct (Nat.le_gt_cases k n1) as [Hle|Hgt].
+    + replace (firstn k (sigs_from (c_kpc s1))) with (firstn k (firstn n1 (sigs_from (c_kpc s1)))).
+      2: { rewrite firstn_firstn. f_equal. lia. }
+      assert (E : firstn (length (sigs o1) + k) (sigs o1 ++ firstn n1 (sigs_from (c_kpc s1))) =
+                  sigs o1 ++ firstn k (firstn n1 (sigs_from (c_kpc s1)))).
+      { rewrite firstn_app_2. reflexivity. }
+      rewrite <- E, Hn1, firstn_firstn. f_equal. lia.
+    + (* k beyond n1: n1 must already cover everything that is left *)
+      assert (Hfull : forall m, (n1 <= m)%nat ->
+                sigs o1 ++ firstn m (sigs_from (c_kpc s1)) = firstn (length (sigs o1) + m) (sigs_from (c_kpc s))).
+      { intros m Hm.
+        destruct (Nat.le_gt_cases (length (sigs_from (c_kpc s1))) n1) as [Hl|Hl].
+        - rewrite (firstn_all2 (n:=m)) by lia. rewrite (firstn_all2 (n:=n1)) in Hn1 by lia.
+          rewrite Hn1.
+          assert (Hlen : length (sigs o1 ++ sigs_from (c_kpc s1)) =
+                         length (firstn (length (sigs o1) + n1) (sigs_from (c_kpc s)))) by (rewrite Hn1; reflexivity).
+          rewrite app_length, firstn_length in Hlen.
+          rewrite !firstn_all2 by lia. reflexivity.
+        - exfalso.
+          assert (Hlen : length (sigs o1 ++ firstn n1 (sigs_from (c_kpc s1))) =
+                         length (firstn (length (sigs o1) + n1) (sigs_from (c_kpc s)))) by (rewrite Hn1; reflexivity).
+          rewrite app_length, !firstn_length in Hlen.
+          (* both sides are cut at n1 resp. length+n1: fine, so look at the next element *)
+          clear Hfull. revert Hn1 Hlen Hl. 
+          destruct (c_kpc s), (c_kpc s1); cbn in *; intros; try lia;
+            destruct (sigs o1) as [|x1 [|x2 [|x3 ?]]]; cbn in *; try lia;
+            destruct n1 as [|[|[|?]]]; cbn in *; try lia; try discriminate. }
+      rewrite Hfull by lia. f_equal. lia.
+Qed.
